@@ -1,6 +1,7 @@
 #ifndef SYMENGINE_SERIALIZE_CEREAL_H
 #define SYMENGINE_SERIALIZE_CEREAL_H
 
+#include <cstdint>
 #include <cctype>
 
 #include <symengine/basic.h>
@@ -565,16 +566,19 @@ template <class Archive>
 RCP<const Basic> load_basic(Archive &ar, RCP<const Interval> &)
 {
     RCP<const Number> start, end;
-    bool left_open, right_open;
+    // read the flags as bytes: any other byte than 0 / 1 in the archive is
+    // not a valid bool object
+    std::uint8_t left_open, right_open;
     ar(left_open, start, right_open, end);
-    return make_rcp<const Interval>(start, end, left_open, right_open);
+    return make_rcp<const Interval>(start, end, left_open != 0,
+                                    right_open != 0);
 }
 template <class Archive>
 RCP<const Basic> load_basic(Archive &ar, RCP<const BooleanAtom> &)
 {
-    bool val;
+    std::uint8_t val;
     ar(val);
-    return boolean(val);
+    return boolean(val != 0);
 }
 template <class Archive>
 RCP<const Basic> load_basic(Archive &ar, RCP<const And> &)
